@@ -114,9 +114,16 @@ pub fn write_text(rng: &mut Rng, dir: &Path, stem: &str, text: &[u8], gz: u8, re
             cuts.dedup();
             rep.add("gzip_members", cuts.len() as u64 - 1);
             rep.count("branch_member_boundary_inside_header");
+            // bgzip-style: sometimes EMPTY members between the parts and at the end (`cat` of bgzip
+            // files: every bgzip file ends with an empty BGZF EOF block)
+            let empties = rng.chance(1, 2);
             let mut b = vec![];
             for w in cuts.windows(2) {
                 b.extend(gzip_member(&text[w[0]..w[1]]));
+                if empties && rng.chance(2, 3) {
+                    b.extend(gzip_member(&[]));
+                    rep.count("branch_empty_gzip_member");
+                }
             }
             (dir.join(format!("{stem}.fa.gz")), b)
         }
